@@ -42,10 +42,13 @@ fn roundtrip(ctx: &mut Ctx, rp: &str, counter: Option<u32>, u: u8, acd: Option<(
         1 => Some(make_credential::SignedExtensionOutputs { hmac_secret: Some(true), hmac_secret_mc: None }),
         2 => Some(make_credential::SignedExtensionOutputs { hmac_secret: Some(false), hmac_secret_mc: Some(ctx.rng.bytes_in(0, 80).into()) }),
         4 => Some(make_credential::SignedExtensionOutputs { hmac_secret: None, hmac_secret_mc: None }),
+        // each member alone, and both: a section with any member present is written (and ED set)
+        5 => Some(make_credential::SignedExtensionOutputs { hmac_secret: None, hmac_secret_mc: Some(ctx.rng.bytes_in(0, 80).into()) }),
+        6 => Some(make_credential::SignedExtensionOutputs { hmac_secret: Some(true), hmac_secret_mc: Some(ctx.rng.bytes_in(32, 64).into()) }),
         _ => None,
     };
     let ga_ext = match ext_kind { 3 => Some(get_assertion::SignedExtensionOutputs { hmac_secret: Some(ctx.rng.bytes_in(32, 64).into()) }), _ => None };
-    let ext_bytes: Option<Vec<u8>> = match ext_kind { 1 | 2 => Some(cbor_bytes(mc_ext.as_ref().unwrap())), 3 => Some(cbor_bytes(ga_ext.as_ref().unwrap())), _ => None };
+    let ext_bytes: Option<Vec<u8>> = match ext_kind { 1 | 2 | 5 | 6 => Some(cbor_bytes(mc_ext.as_ref().unwrap())), 3 => Some(cbor_bytes(ga_ext.as_ref().unwrap())), _ => None };
     let key = acd.as_ref().map(|_| CoseKeyBuilder::new_ec2_pub_key(iana::EllipticCurve::P_256, ctx.rng.bytes(32), ctx.rng.bytes(32)).algorithm(iana::Algorithm::ES256).build());
     let key_bytes = key.clone().map(|k| k.to_vec().unwrap());
     let acd_s = match (&acd, &key_bytes) { (Some((ag, cid)), Some(kb)) => format!("{}:{}:{}", hexf(ag), hexf(cid), hexf(kb)), _ => "NONE".into() };
@@ -82,7 +85,7 @@ pub fn gen(ctx: &mut Ctx) {
     let mut encs: Vec<Vec<u8>> = vec![];
     // every id length x with/without extensions; all 16 user-flag combinations; counters
     for (i, l) in id_lens.iter().enumerate() {
-        for ext in [0u8, 1, 2, 4] {
+        for ext in [0u8, 1, 2, 4, 5, 6] {
             let u = user_flags[(i * 5 + ext as usize) % 16];
             let counter = match (i + ext as usize) % 4 { 0 => None, 1 => Some(0), 2 => Some(u32::MAX), _ => Some(ctx.rng.next() as u32) };
             let rp = format!("rp{}.example.com", i);
@@ -105,7 +108,7 @@ pub fn gen(ctx: &mut Ctx) {
         let counter = match ctx.rng.below(4) { 0 => None, 1 => Some(0), 2 => Some(1 << 31), _ => Some(ctx.rng.next() as u32) };
         let u = *ctx.rng.pick(&user_flags);
         let acd = if ctx.rng.below(3) != 0 { let cid = ctx.rng.bytes_in(0, 300); let ag = ctx.rng.bytes(16); Some((ag, cid)) } else { None };
-        let ext = ctx.rng.below(5) as u8;
+        let ext = ctx.rng.below(7) as u8;
         if let Some(e) = roundtrip(ctx, &rp, counter, u, acd, ext) { if encs.len() < 400 { encs.push(e); } }
     }
     // every truncation of valid encodings (compared exactly with the model)
